@@ -6,6 +6,9 @@ driver for the keep-alive model (engine `keepalive`).  One case per line:
   ka <n> (A <cl|~> <bodyless-status 0|1> <head-request 0|1> <k> <piece-hex>*){n} S <schedule: string of c / s>
      → <delivered>:<served> per step, `;`-joined (or `-`) | final <waited> <stuck> <n> (<req> <tag> <body>)* F (L<n> | C | U)*
 
+  pipe <n> (A <cl|~> <bodyless 0|1> <head 0|1> <close 0|1> <k> <piece-hex>*){n}
+     → handled <h> alive <0|1> D <m> (<req> <tag> <body>)*                       (pipeline-level model)
+
 request `i` (0-based) has identity `i`; the `i`-th `A` block is what the application does for it.
 -/
 namespace Ioflo.Drv.KeepAlive
@@ -33,6 +36,23 @@ partial def apps? : Nat → List String → Option (List (AppResp × Bool) × Li
           | none => none)
        | none => none)
     | _, _, _, _ => none
+  | _, _ => none
+
+/-- blocks of the `pipe` command: `A <cl|~> <bodyless> <head> <close> <k> <piece>*` -/
+partial def xapps? : Nat → List String → Option (List (AppResp × Bool × Bool) × List String)
+  | 0, rest => some ([], rest)
+  | n + 1, "A" :: cl :: bl :: hd :: cs :: k :: rest =>
+    let opt? (t : String) : Option (Option Nat) := if t == "~" then some none else (t.toNat?).map some
+    let flag? (t : String) : Option Bool := if t == "1" then some true else if t == "0" then some false else none
+    match opt? cl, flag? bl, flag? hd, flag? cs, k.toNat? with
+    | some cl, some bl, some hd, some cs, some k =>
+      (match takeHex k rest with
+       | some (ps, rest') =>
+         (match xapps? n rest' with
+          | some (as, r) => some (({ cl := cl, pieces := ps, bodyless := bl }, hd, cs) :: as, r)
+          | none => none)
+       | none => none)
+    | _, _, _, _, _ => none
   | _, _ => none
 
 def fmtFraming : Framing → String
@@ -63,6 +83,20 @@ def step (_ : Unit) (line : String) : Unit × String :=
              toString c.responses.length ++
              String.join (c.responses.map (fun d => " " ++ toString d.req ++ " " ++ toString d.tag ++ " " ++ bytesToHex d.body)) ++
              " F" ++ String.join (final.s.heads.map (fun f => " " ++ fmtFraming f))))
+      | _ => ((), "bad-op")
+  | "pipe" :: n :: rest =>
+    match n.toNat? with
+    | none => ((), "bad-op")
+    | some n =>
+      match xapps? n rest with
+      | some (apps, []) =>
+        let dflt : AppResp × Bool × Bool := ({ cl := none, pieces := [] }, false, false)
+        let app : Req → AppResp := fun q => (apps.getD q.id dflt).1
+        let reqs := (List.range n).map (fun i => ({ id := i, head := (apps.getD i dflt).2.1, close := (apps.getD i dflt).2.2 } : Req))
+        let o := pipeline app reqs
+        let ds := o.1.filterMap (fun x => x.2)
+        ((), "handled " ++ toString o.1.length ++ " alive " ++ (if o.2 then "1" else "0") ++ " D " ++ toString ds.length ++
+          String.join (ds.map (fun d => " " ++ toString d.req ++ " " ++ toString d.tag ++ " " ++ bytesToHex d.body)))
       | _ => ((), "bad-op")
   | _ => ((), "bad-op")
 
